@@ -137,6 +137,8 @@ fn storages_for(ml: usize, mu: usize, n: usize, identity: bool) -> Vec<MatrixSto
     if ml + 1 <= n - 1 || mu + 1 <= n - 1 {
         v.push(MatrixStorage::Banded { ml: (ml + 1).min(n.saturating_sub(1)), mu: (mu + 1).min(n.saturating_sub(1)) });
     }
+    // a band wider than the matrix itself (ml = mu = n): still the same entries
+    v.push(MatrixStorage::Banded { ml: n, mu: n });
     if identity {
         v.push(MatrixStorage::Identity);
     }
@@ -608,6 +610,71 @@ pub fn run_check(replay: Option<Value>) -> i32 {
         Some(out)
     });
     rep.absorb(louts.into_iter().flatten().collect());
+
+    // no mass supplied, every mass storage, on a very stiff problem started with an oversized first step
+    // (the error estimate of the first attempts goes through its refinement branch): still y' = f, bitwise
+    let sjobs: Vec<(usize, usize)> = (0..3usize).flat_map(|e| (0..2usize).map(move |j| (e, j))).collect();
+    let souts = par_map(sjobs.len(), |q| {
+        let (ei, jsrc) = sjobs[q];
+        let key = format!("stiffstart:{}.{}", ei, jsrc);
+        if let Some(o) = &only {
+            if *o != key {
+                return None;
+            }
+        }
+        let eps = [1e-6, 1e-4, 1e-2][ei];
+        let p = Prob {
+            name: format!("van der pol (Lienard form), eps={:e}", eps),
+            n: 2,
+            f: Arc::new(move |_t, y, d| {
+                d[0] = y[1];
+                d[1] = ((1.0 - y[0] * y[0]) * y[1] - y[0]) / eps;
+            }),
+            jac: Some(Arc::new(move |_t, y| vec![0.0, 1.0, (-2.0 * y[0] * y[1] - 1.0) / eps, (1.0 - y[0] * y[0]) / eps])),
+            flow: None,
+            y0: vec![2.0, 0.0],
+            linear_homogeneous: false,
+        };
+        let mut out = CaseOut::default();
+        let desc = json!({"key": key, "problem": p.name, "jacobian": if jsrc == 0 { "user" } else { "finite-difference" }});
+        let mut basel: Option<Solution> = None;
+        for fs in [Some(1e-3), Some(0.1), None] {
+            basel = None;
+            for ms in [MatrixStorage::Identity, MatrixStorage::Full, MatrixStorage::Banded { ml: 0, mu: 0 }, MatrixStorage::Banded { ml: 1, mu: 1 }] {
+                let mut c = Cfg::new(Method::RADAU, 0.0, 0.5, &p.y0).tol(1e-5, 1e-7);
+                c.user_jac = jsrc == 0;
+                c.first_step = fs;
+                c.mass_storage = ms.clone();
+                let r = run_with(&p, &c, None, None);
+                out.events += r.st.n_ode;
+                match r.sol() {
+                    Some(s) if s.status == Status::Success => match &basel {
+                        None => basel = Some(s.clone()),
+                        Some(bs) => {
+                            let same = bits_eq(&s.t, &bs.t) && s.y.iter().zip(&bs.y).all(|(u, v)| bits_eq(u, v)) && (s.nfev, s.nstep, s.naccpt, s.nrejct) == (bs.nfev, bs.nstep, bs.naccpt, bs.nrejct);
+                            if !same {
+                                out.violations.push(Violation::new(&key, "default-mass", format!("no mass override, first_step {:?}: mass storage {:?} gives a different run than Identity ({} vs {} samples, nrejct {} vs {})", fs, ms, s.t.len(), bs.t.len(), s.nrejct, bs.nrejct), desc.clone()).with("mass", "default").with("n", 2));
+                            }
+                            out.validated += 1;
+                        }
+                    },
+                    _ => out.violations.push(Violation::new(&key, "outcome", format!("first_step {:?}, mass storage {:?}: run ended with {}", fs, ms, r.outcome_name()), desc.clone()).with("mass", "default").with("n", 2)),
+                }
+            }
+            if basel.as_ref().map(|b| b.nrejct > 0).unwrap_or(false) {
+                out.tag("stiff-start-with-rejections");
+            }
+        }
+        let mut h = crate::util::Fp::default();
+        h.s(&key);
+        if let Some(bs) = &basel {
+            h.fs(bs.y.last().unwrap());
+        }
+        out.fp = Some(h.as_u128());
+        out.sample = Some(desc);
+        Some(out)
+    });
+    rep.absorb(souts.into_iter().flatten().collect());
     if only.is_some() {
         for v in &rep.violations {
             println!("replay: VIOLATED [{}]: {}\n{}", v.sig["check"], v.msg, serde_json::to_string_pretty(&v.case).unwrap());
@@ -624,6 +691,7 @@ pub fn run_check(replay: Option<Value>) -> i32 {
     for t in ["storage-pair", "mass-vs-explicit", "dae-constraint", "default-mass", "dae-pivot", "lag-chain-refactorised"] {
         rep.require(t, 10);
     }
+    rep.require("stiff-start-with-rejections", 2);
     rep.rule = "for every (dimension, mass pattern, Jacobian band pattern): all storage pairs holding the same entries must give bitwise identical trajectories (baseline Full/Full); M y'=f against y'=M^-1 f solved by Radau and DOP853 at 100x tighter tolerance; the algebraic residual of the index-1 DAE at every sample; index-1 DAEs with the algebraic row first (a row interchange in every real and complex factorisation) against their closed form, with a work budget; lag chains whose iteration matrices need row interchanges: Full vs Banded Jacobian and assigned vs accumulated (+=) unit mass bitwise; finite-difference vs analytic Jacobian; with no mass override every mass storage (including asymmetric bands) and the low-level builder defaults must reproduce y'=f bitwise; distinct = distinct (configuration, final state)".into();
     rep.finish()
 }
